@@ -91,6 +91,11 @@ ROWS = {
                   lambda n, sub: ast.Call(func=ast.Name(id='g', ctx=ast.Load()), args=[sub(n.args[0])], keywords=[])),
     'name_attr': (lambda: MName(id='a'), 'b.c', lambda n: isinstance(n, ast.Name) and n.id == 'a',
                   lambda n, sub: ast.Attribute(value=ast.Name(id='b', ctx=ast.Load()), attr='c', ctx=type(n.ctx)())),
+    # a pattern holding an expr_context INSTANCE: compared only when ctx=True is passed
+    'name_load_inst': (lambda: ast.Name(id='a', ctx=ast.Load()), 'b.c', lambda n, cx=False: isinstance(n, ast.Name) and n.id == 'a' and (not cx or isinstance(n.ctx, ast.Load)),
+                       lambda n, sub: ast.Attribute(value=ast.Name(id='b', ctx=ast.Load()), attr='c', ctx=type(n.ctx)())),
+    'name_store_inst': (lambda: MName(id='a', ctx=ast.Store()), 'b.c', lambda n, cx=False: isinstance(n, ast.Name) and n.id == 'a' and (not cx or isinstance(n.ctx, ast.Store)),
+                        lambda n, sub: ast.Attribute(value=ast.Name(id='b', ctx=ast.Load()), attr='c', ctx=type(n.ctx)())),
     'identity_binop': (lambda: MBinOp(), '__FST_', lambda n: isinstance(n, ast.BinOp), None),
     'str_slot': (lambda: MCall(func=MName(id='f'), args=[M(x=...)], keywords=[]), 'log("got __FST_x!", __FST_x)', _is_f_call1,
                  lambda n, sub: ast.Call(func=ast.Name(id='log', ctx=ast.Load()), args=[ast.Constant(value='got ' + ast.unparse(n.args[0]) + '!'), sub(n.args[0])], keywords=[])),
@@ -142,7 +147,11 @@ def _mk(key, row):
     src = SRCS[key]
     mkpat, repl, is_match, build = ROWS[row]
 
-    def fn(count: int, nested: bool, leave: bool):
+    ctx_row = row.endswith('_inst')
+
+    def fn(count: int, nested: bool, leave: bool, cx: bool):
+        if not ctx_row:
+            assume(not cx)
         assume(-2 <= count <= 12)
         cnt = pc.pin(count, -2, 12)
         if row == 'str_slot':
@@ -151,7 +160,7 @@ def _mk(key, row):
             root = FST(src, 'exec')
             pc.reset_globals()
             ref = ast.parse(src)
-            nref = reference(ref, is_match, build, cnt, nested, leave)
+            nref = reference(ref, (lambda n_: is_match(n_, cx)) if ctx_row else is_match, build, cnt, nested, leave)
             exp = ast.dump(ref)
             try:
                 valid = ast.dump(ast.parse(ast.unparse(ref))) == exp
@@ -161,9 +170,9 @@ def _mk(key, row):
         sig = f'sub.{key}.{row}'
         try:
             with FST.options(**pc.OPTS):
-                _r, nuniq, ntot = root.subn(mkpat(), repl, nested, count=max(cnt, 0), on='leave' if leave else 'enter')
+                _r, nuniq, ntot = root.subn(mkpat(), repl, nested, count=max(cnt, 0), on='leave' if leave else 'enter', **({'ctx': cx} if ctx_row else {}))
         except pc.EXPECTED_RAISES as ex:
-            fail('sub.raised', (key, row, cnt, nested, leave, type(ex).__name__, str(ex)[:200]))
+            fail('sub.raised', (key, row, cnt, nested, leave, cx, type(ex).__name__, str(ex)[:200]))
         with pc.untraced():
             t = pc.o_parse(root, sig)
             got = ast.dump(t)
@@ -183,10 +192,10 @@ def _mk(key, row):
 
 FNU = ['fst.match.subn', 'fst.match.sub', 'fst.match.search', 'fst.match._sub_quantifier_list_edge_item', 'fst.fst_traverse.walk', 'fst.fst_put_one._put_one']
 CELLS = []
-for _k, _rows in (('calls', ('call_wrap', 'identity_binop', 'str_slot')), ('names', ('name_attr',)), ('lists', ('list_split',)), ('binops', ('identity_binop', 'name_attr'))):
+for _k, _rows in (('calls', ('call_wrap', 'identity_binop', 'str_slot')), ('names', ('name_attr', 'name_load_inst', 'name_store_inst')), ('lists', ('list_split',)), ('binops', ('identity_binop', 'name_attr'))):
     for _r in _rows:
         CELLS.append(Cell(f'P1.sub[{_k},{_r}]', _mk(_k, _r), 'P', FNU,
-                          f'carrier {_k}; pattern/template row {_r} ({ROWS[_r][1]!r}); count symbolic in -2..12, nested and on=leave booleans',
+                          f'carrier {_k}; pattern/template row {_r} ({ROWS[_r][1]!r}); count symbolic in -2..12, nested and on=leave booleans (ctx= boolean for the rows whose pattern holds a context instance)',
                           tier='quick', budget=900, per_path=120, out='rows/carriers outside the table; loop, callbacks, scope/back settings', reset=pc.reset_globals))
 CELLS.append(Cell('P1.sub_loop[nestlists]', p1_loop, 'P', FNU, 'pattern [x] -> x with loop budget symbolic in 0..6 (0 = unbounded) on a carrier with several nested single-element lists of different depths; reference = per-location unwrapping',
                   tier='quick', budget=600, per_path=120, reset=pc.reset_globals))
